@@ -4,6 +4,8 @@ import (
 	"fmt"
 	"net/http"
 	"strings"
+	"time"
+	"verif/shim/vclock"
 
 	"github.com/bolkedebruin/rdpgw/cmd/rdpgw/protocol"
 
@@ -15,10 +17,11 @@ import (
 // second RDG_IN_DATA request with the connection id of a tunnel that already
 // has an inbound channel must not get a packet loop of its own.
 func c01DoubleIn(rep *Report) {
-	for _, when := range []string{"before-first-byte-of-in1", "after-preamble-of-in1", "after-session-of-in1", "after-in1-closed-its-channel", "after-in1-sent-a-protocol-error", "after-in1-dropped"} {
+	for _, when := range []string{"before-first-byte-of-in1", "after-preamble-of-in1", "after-session-of-in1", "after-in1-closed-its-channel", "after-in1-sent-a-protocol-error", "after-in1-dropped", "six-minutes-into-the-session-of-in1"} {
 		cfg := c01Cfg(true, false, "legacy")
 		var dials, okResps int
 		var in2Accepted bool
+		vclock.Reset()
 		x := vsched.Run(nil, 40000, false, nil, func() {
 			w := NewWorld()
 			w.Accept = cfg.Accept
@@ -82,6 +85,30 @@ func c01DoubleIn(rep *Report) {
 				}
 				vsched.WaitIdle()
 				in2 = openIn("in-2")
+			case "six-minutes-into-the-session-of-in1":
+				// the tunnel is alive for longer than the gateway's connection cache remembers an entry by default
+				// (five minutes): after four minutes the client re-sends its outbound request (which the gateway
+				// takes as the tunnel's new outbound channel and which renews the entry), two minutes later a
+				// second inbound request arrives
+				session(in1)
+				vclock.Advance(4 * time.Minute)
+				out2 := w.Serve("out-1b", h, "RDG_OUT_DATA", hd, "10.0.0.1:50002", id)
+				oc2 := &TunnelClient{Kind: "legacy", Conn: out2.Client}
+				oc2.ReadHTTPHead()
+				vsched.WaitIdle()
+				oc2.Absorb()
+				oc.Absorb()
+				pre, _, _ := tsgu.Split(oc.stream)
+				for _, p := range pre {
+					if r := tsgu.ParseResp(p); r.HasStatus && r.Status == 0 {
+						okResps++
+					}
+				}
+				oc = oc2
+				oc.stream = nil
+				vclock.Advance(2 * time.Minute)
+				in2 = openIn("in-2")
+				in2.Conn = out2.Client
 			default:
 				session(in1)
 				in2 = openIn("in-2")
@@ -102,10 +129,15 @@ func c01DoubleIn(rep *Report) {
 			rep.violate("C01/panic:"+shortFn(panicSite(p))+"/legacy-second-inbound", p.Value, map[string]any{"noreplay": true})
 		}
 		x.Finish()
+		vclock.Reset()
 		rep.outcome(fmt.Sprintf("legacy second inbound %s: dials=%d ok=%d in2accepted=%v", when, dials, okResps, in2Accepted))
 		wantOK := 4
 		if when == "after-in1-closed-its-channel" {
 			wantOK = 5 // the close request of the first session is answered with success too
+		}
+		ended := strings.HasPrefix(when, "after-in1-closed") || strings.HasPrefix(when, "after-in1-sent") || strings.HasPrefix(when, "after-in1-dropped")
+		if ended && in2Accepted {
+			rep.violate("C01/inbound-request-answered-with-success-after-the-tunnel-ended/"+when, "a new RDG_IN_DATA request for the connection id of a tunnel that has ended was answered with 200 (the answer that accepts an inbound channel)", map[string]any{"noreplay": true})
 		}
 		if dials > 1 || okResps > wantOK {
 			rep.violate("C01/second-packet-loop-on-one-legacy-tunnel/"+when, fmt.Sprintf("second RDG_IN_DATA with the same connection id %s: %d backend connections, %d success responses (one session gives 1 and %d), second request accepted=%v", when, dials, okResps, wantOK, in2Accepted), map[string]any{"noreplay": true})
